@@ -40,7 +40,10 @@ Definition hdisc (H : hstate) (e : hop) : Prop :=
   match e with
   | HS e0 => sdisc meta true (hS H) e0
   | HAct t u a => sdisc meta true (hS H) (SOp t (Act u a))
-  | HStatus _ _ => True
+    (* a contract whose rows the host has deleted stays rejected (a formation that confirms after the host
+       gave the contract up leaves a confirmed contract without data: not a matter of this layer) *)
+  | HStatus id st => mem id (hexp H) = true -> st = CRejected
+  | HExpire => True
   end.
 
 Fixpoint hdisc_run (H : hstate) (evs : list hop) : Prop :=
@@ -64,11 +67,12 @@ Lemma hstep_cases H e : hdisc H e ->
   hS (fst (hstep H e)) = hS H \/
   exists e0, sdisc meta true (hS H) e0 /\ hS (fst (hstep H e)) = fst (sstep faithful (hS H) e0).
 Proof.
-  intros D. destruct e as [e0|t u a|id st]; cbn [hstep hdisc] in *.
+  intros D. destruct e as [e0|t u a|id st|]; cbn [hstep hdisc] in *.
   - destruct (sownb (hS H) e0); [|now left].
     destruct (status_stop H e0); [now left|].
     right. exists e0. split; [exact D|]. now destruct (sstep faithful (hS H) e0).
   - right. exists (SOp t (Act u a)). split; [exact D|]. now destruct (sstep faithful (hS H) (SOp t (Act u a))).
+  - now left.
   - now left.
 Qed.
 
@@ -85,10 +89,10 @@ Proof. intros R. apply sreach_sinv. now apply hreach_sreach. Qed.
 
 Lemma hstep_HS_ok H e H' ob :
   hstep H (HS e) = (H', hs ob) -> status_stop H e = None ->
-  sstep faithful (hS H) e = (hS H', ob).
+  exists ob', sstep faithful (hS H) e = (hS H', ob') /\ ob = patch_look H e (patch_lock2 H e ob').
 Proof.
   cbn [hstep]. intros E St. rewrite St in E. destruct (sownb (hS H) e); [|discriminate].
-  destruct (sstep faithful (hS H) e) as [S' ob']. now inversion E.
+  destruct (sstep faithful (hS H) e) as [S' ob']. exists ob'. now inversion E.
 Qed.
 
 Theorem hand_acquire1 H t id H' r f m :
@@ -102,7 +106,7 @@ Proof.
   assert (St : status_stop H (SAcq1 t id) = None).
   { cbn [hstep sownb] in E. destruct (status_stop H (SAcq1 t id)) as [ob|] eqn:St; [|reflexivity].
     cbn [status_stop] in St. destruct (lock_free (hS H) id && _); [|discriminate]. inversion St; subst ob. discriminate. }
-  pose proof (hstep_HS_ok _ _ _ _ E St) as E1.
+  destruct (hstep_HS_ok _ _ _ _ E St) as (ob' & E1 & Eo). cbn [patch_lock2 patch_look] in Eo. subst ob'.
   destruct (acquire1_view_agrees meta _ _ _ _ _ _ _ (hreach_sreach H R) E1) as (c & L & Hc).
   split; [|exists c; split; [exact L|exact Hc]].
   cbn [status_stop] in St. cbn [sstep] in E1.
@@ -116,7 +120,10 @@ Theorem hand_acquire2 H t id H' r rv l :
     l = tbl_list (rows c) /\ l = cache_get (sb (hS H)) id /\
     fsize c = sector_size * nlen l /\ mroot c = meta l.
 Proof.
-  intros R E. pose proof (hstep_HS_ok _ _ _ _ E eq_refl) as E1.
+  intros R E. destruct (hstep_HS_ok _ _ _ _ E eq_refl) as (ob' & E1 & Eo).
+  assert (exists rv', ob' = SO (OLock2 (Ok (r, false, rv', l)))) as (rv' & ->).
+  { cbn [patch_lock2 patch_look] in Eo. destruct ob' as [[ | | |[[[[r0 rn0] rv0] l0]| |]| | ]| |]; try discriminate.
+    inversion Eo; subst. eauto. }
   exact (acquire2_view_agrees meta _ _ _ _ _ _ _ (hreach_sreach H R) E1).
 Qed.
 
@@ -191,6 +198,112 @@ Proof.
     [now apply (renewed1_sstable meta)|now apply (renewed2_sstable meta)].
 Qed.
 
+(** * round 2: the rows of rejected contracts are deleted; the v2 path refuses rejected contracts *)
+
+Lemma mem_app x l1 l2 : mem x (l1 ++ l2) = mem x l1 || mem x l2.
+Proof. unfold mem. apply existsb_app. Qed.
+
+Lemma mem_filter_true x f l : mem x (filter f l) = true -> f x = true.
+Proof.
+  unfold mem. rewrite existsb_exists. intros (y & Hy & E). apply N.eqb_eq in E; subst y.
+  apply filter_In in Hy. tauto.
+Qed.
+
+Lemma hstep_keeps_tables H e : match e with HS _ | HAct _ _ _ => True | _ => False end ->
+  hst (fst (hstep H e)) = hst H /\ hexp (fst (hstep H e)) = hexp H.
+Proof.
+  destruct e as [e0|t u a|id st|]; try tauto; intros _; cbn [hstep].
+  - destruct (sownb (hS H) e0); [|now split]. destruct (status_stop H e0); [now split|].
+    now destruct (sstep faithful (hS H) e0).
+  - now destruct (sstep faithful (hS H) (SOp t (Act u a))).
+Qed.
+
+(* a contract whose rows are gone is a rejected contract, in every reachable state *)
+Theorem expired_is_rejected H id : hreach H -> mem id (hexp H) = true -> is_rej H id = true.
+Proof.
+  induction 1 as [|H e R IH D]; [discriminate|].
+  destruct e as [e0|t u a|id' st|].
+  - destruct (hstep_keeps_tables H (HS e0) I) as [E1 E2]. unfold is_rej, hstatus. now rewrite E1, E2.
+  - destruct (hstep_keeps_tables H (HAct t u a) I) as [E1 E2]. unfold is_rej, hstatus. now rewrite E1, E2.
+  - cbn [hstep fst hexp hdisc] in *. intros M. unfold is_rej, hstatus. cbn [hst]. rewrite alookup_aset.
+    destruct (id =? id') eqn:E; [|exact (IH M)]. apply N.eqb_eq in E; subst id'. now rewrite (D M).
+  - cbn [hstep fst hexp]. rewrite mem_app. intros M. apply orb_true_iff in M as [M|M]; [exact (IH M)|].
+    apply mem_filter_true in M. apply andb_true_iff in M as [M _]. exact M.
+Qed.
+
+Lemma alookup_erase_rows dead id : forall t,
+  alookup id (erase_rows dead t) =
+  if mem id dead then option_map (fun c => with_rows c []) (alookup id t) else alookup id t.
+Proof.
+  induction t as [|[k c] t IH]; cbn [erase_rows map alookup fst snd]; [now destruct (mem id dead)|].
+  fold (erase_rows dead t). destruct (mem k dead) eqn:Mk; cbn [alookup]; destruct (id =? k) eqn:E.
+  - apply N.eqb_eq in E; subst k. now rewrite Mk.
+  - exact IH.
+  - apply N.eqb_eq in E; subst k. now rewrite Mk.
+  - exact IH.
+Qed.
+
+(* C03 on what the database holds: for every contract the host has not given up (its rows were never
+   expired) and that is not superseded by a renewal, persisted list = served list, and the stored revision
+   commits to it — whatever handlers, waiters, payments, renewals, status changes and expiries came before *)
+Theorem live_lists_identical H id c :
+  hreach H -> mem id (hexp H) = false ->
+  alookup id (t1 (dbs (hreal H))) = Some c \/ alookup id (t2 (dbs (hreal H))) = Some c ->
+  rto c = None ->
+  tbl_list (rows c) = cache_get (sb (hS H)) id /\
+  fsize c = sector_size * nlen (cache_get (sb (hS H)) id) /\ mroot c = meta (cache_get (sb (hS H)) id).
+Proof.
+  intros R M L Rt. pose proof (si_inv meta _ (hreach_sinv H R)) as I.
+  unfold hreal in L. cbn [dbs set_dbs t1 t2 set_t1 set_t2] in L. rewrite !alookup_erase_rows, M in L.
+  destruct L as [L|L].
+  - destruct (live_rows meta _ _ _ _ _ (inv_t1 meta _ I) L Rt) as (Hr & Hf & Hm).
+    repeat split; auto. now rewrite Hr, tbl_list_of.
+  - destruct (live_rows meta _ _ _ _ _ (inv_t2 meta _ I) L Rt) as (Hr & Hf & Hm).
+    repeat split; auto. now rewrite Hr, tbl_list_of.
+Qed.
+
+(* an expiry deletes rows of rejected contracts only, and nothing else changes *)
+Theorem expire_only_rejected H id :
+  hS (fst (hstep H HExpire)) = hS H /\ hst (fst (hstep H HExpire)) = hst H /\
+  (mem id (hexp (fst (hstep H HExpire))) = true -> mem id (hexp H) = true \/ is_rej H id = true).
+Proof.
+  cbn [hstep fst hS hst hexp]. repeat split. rewrite mem_app. intros M.
+  apply orb_true_iff in M as [M|M]; [now left|right].
+  apply mem_filter_true in M. now apply andb_true_iff in M as [M _].
+Qed.
+
+Definition unusable2 (H : hstate) (id : cid) : Prop :=
+  alookup id (t2 (dbs (sb (hS H)))) <> None /\ is_rej H id = true.
+
+Lemma unusable2_bad H id : unusable2 H id ->
+  opt_is_some (alookup id (t2 (dbs (sb (hS H))))) && is_rej H id = true.
+Proof. intros [L U]. rewrite U. destruct (alookup id _); [reflexivity|now elim L]. Qed.
+
+Lemma refused_res2_not_ok s id fault : refused_res2 s id fault <> Ok tt.
+Proof. unfold refused_res2. match goal with |- match ?m with _ => _ end <> _ => destruct m end; discriminate. Qed.
+
+(* the patch: ReviseV2Contract and RenewV2Contract refuse a rejected contract and change nothing *)
+Theorem rejected2_refuses H t e : sownb (hS H) e = true ->
+  (exists id c l m a b f, e = SOp t (Revise2 id c l m a b f) /\ unusable2 H id) \/
+  (exists old new c m f, (e = SOp t (Renew2 old new c m true f) \/ e = SRenewH t true (Renew2 old new c m true f)) /\
+                         unusable2 H old) ->
+  exists r, hstep H (HS e) = (H, hs (SO (ORes r))) /\ r <> Ok tt.
+Proof.
+  intros Ow [(id & c & l & m & a & b & f & -> & U) | (old & new & c & m & f & [-> | ->] & U)];
+    cbn [hstep]; rewrite Ow; cbn [status_stop]; rewrite (unusable2_bad H _ U);
+    eexists; (split; [reflexivity|apply refused_res2_not_ok]).
+Qed.
+
+(* the patch: LockV2Contract reports a rejected contract as not revisable (the RHP4 server then answers
+   "contract is not revisable" to every revising RPC) *)
+Theorem rejected2_not_revisable H t id H' r rn rv l :
+  hstep H (HS (SAcq2 t id)) = (H', hs (SO (OLock2 (Ok (r, rn, rv, l))))) -> is_rej H id = true -> rv = false.
+Proof.
+  intros E Rj. destruct (hstep_HS_ok _ _ _ _ E eq_refl) as (ob' & _ & Eo).
+  cbn [patch_lock2 patch_look] in Eo. destruct ob' as [[ | | |[[[[r0 rn0] rv0] l0]| |]| | ]| |]; try discriminate.
+  inversion Eo; subst. rewrite Rj. apply andb_false_r.
+Qed.
+
 End HTop.
 
 (** * non-vacuity: a contract rejected while one session holds its lock and another one waits *)
@@ -245,3 +358,51 @@ Proof.
     exists old, new, a, b, c, d, e1, f, g, h, k. split; [now right|exact U].
   - exists (Err EInvalid). split; [now apply pool_rejected_hstep|discriminate].
 Qed.
+
+(** * round 2: the v2 path WITHOUT the status guard (the code before
+   fixes/C03-v2-rejected-contract-not-revisable.patch) *)
+
+Definition ex_rej2 : list hop :=
+  [ HS (SOp 0 (StoreSec 1)); HS (SOp 0 (StoreSec 2)); HS (SOp 0 (StoreSec 3));
+    HS (SOp 0 (Form2 7 (fc 0 0 (meta0 []))));
+    HS (SAcq2 1 7);
+    HS (SOp 1 (Revise2 7 (fc 1 (2 * sector_size) (meta0 [1; 2])) [1; 2] (meta0 [1; 2]) true true None));
+    HS (SRel 1 7);
+    HStatus 7 CRejected;               (* the formation was never confirmed *)
+    HExpire ].                         (* ExpireV2ContractSectors: the two rows are deleted *)
+
+Definition ex_rej2_append : op :=
+  Revise2 7 (fc 2 (3 * sector_size) (meta0 [1; 2; 3])) [1; 2; 3] (meta0 [1; 2; 3]) true true None.
+
+Lemma ex_rej2_disc : hdisc_run meta0 hinit ex_rej2.
+Proof.
+  cbn [hdisc_run ex_rej2];
+    repeat (split; [vm_compute; repeat split; try reflexivity; try discriminate; try (intros; discriminate);
+                    try (match goal with E : Some _ = Some _ |- _ => injection E as <-; reflexivity end); own_solve|]);
+    try exact I.
+Qed.
+
+(* Model.v's Revise2 (no status read, as ReviseV2Contract was) on what the database holds after the expiry:
+   accepted; the host now persists [3] for a contract whose revision commits to three sectors and for which
+   it serves [1; 2; 3] *)
+Lemma rejected_v2_revised_refuted :
+  exists evs id o c,
+    hdisc_run meta0 hinit evs /\ is_rej (hruns hinit evs) id = true /\ mem id (hexp (hruns hinit evs)) = true /\
+    snd (step (hreal (hruns hinit evs)) o) = ORes (Ok tt) /\
+    alookup id (t2 (dbs (fst (step (hreal (hruns hinit evs)) o)))) = Some c /\ rto c = None /\
+    tbl_list (rows c) <> cache_get (fst (step (hreal (hruns hinit evs)) o)) id /\
+    fsize c <> sector_size * nlen (tbl_list (rows c)) /\
+    mroot c <> meta0 (tbl_list (rows c)).
+Proof.
+  exists ex_rej2, 7, ex_rej2_append. eexists. split; [exact ex_rej2_disc|].
+  vm_compute. repeat split; discriminate.
+Qed.
+
+(* with the guard: not revisable, refused, nothing changes *)
+Lemma ex_rej2_patched :
+  let H := hruns hinit ex_rej2 in
+  snd (hstep H (HS (SAcq2 1 7))) = hs (SO (OLock2 (Ok (1, false, false, [1; 2])))) /\
+  hstep (fst (hstep H (HS (SAcq2 1 7)))) (HS (SOp 1 ex_rej2_append))
+    = (fst (hstep H (HS (SAcq2 1 7))), hs (SO (ORes (Err EInvalid)))) /\
+  snd (hstep H (HS (SOp 0 (Look2 7)))) = hs (SO (OLook true [] [1; 2] 1 (2 * sector_size) (meta0 [1; 2]) None None)).
+Proof. vm_compute. repeat split. Qed.
